@@ -450,6 +450,28 @@ pub fn run(path: &str, workdir: &str) {
                     }
                     None => "NoLink".to_string(),
                 },
+                "drop" => match cl.link_pos(&op[1], &op[2]) {
+                    // the lines queued from -> to are lost (the peer is away)
+                    Some(li) => {
+                        let mut k = 0;
+                        while let Ok(Some(_)) = cl.links[li].rx.try_next() {
+                            k += 1;
+                        }
+                        format!("Dropped {}", k)
+                    }
+                    None => "NoLink".to_string(),
+                },
+                "resync" => match cl.link_pos(&op[1], &op[2]) {
+                    // the node comes back: its link thread runs start_sync_process again
+                    Some(li) => {
+                        let fi = cl.idx(&op[1]);
+                        cl.enter(fi);
+                        let line = format!("replicate-since {} {}", op[1], nundb::disk_ops::Oplog::last_op_time());
+                        cl.links[li].handshake.push(line);
+                        "Resync".to_string()
+                    }
+                    None => "NoLink".to_string(),
+                },
                 "settle" => {
                     let (rounds, ok) = cl.settle(200);
                     if ok {
